@@ -56,9 +56,13 @@ def roundSecond (t : Time) : Time := ((t + second / 2) / second) * second
     expiry map; `none` is Go's zero `time.Time`. -/
 structure Sess where
   subject : String := ""
+  idSubject : String := ""     -- `IDTokenClaims().Subject` (what ID-token issuance looks at)
   expCode : Option Time := none
   expAccess : Option Time := none
   expRefresh : Option Time := none
+  expDevice : Option Time := none
+  expUser : Option Time := none
+  expPar : Option Time := none
   deriving DecidableEq, Repr, Inhabited
 
 structure Client where
@@ -114,6 +118,9 @@ structure Config where
   enforcePKCEPublic : Bool := false
   enablePlain : Bool := false
   disableRefreshIntrospect : Bool := false
+  deviceLife : Dur := 10 * 60 * 1000000000      -- DeviceAndUserCodeLifespan
+  parLife : Dur := 5 * 60 * 1000000000          -- PushedAuthorizeContextLifespan
+  enforcePAR : Bool := false
   deriving Repr
 
 /-- A credential as presented on the wire, after abstraction: which stored signature its
